@@ -348,7 +348,7 @@ pub enum KeyCommand {
     },
     Expire {
         key: Vec<u8>,
-        seconds: u64,
+        seconds: i64,
     },
     PExpire {
         key: Vec<u8>,
@@ -1205,7 +1205,12 @@ impl UnifiedCommandExecutor {
             }
             
             KeyCommand::Expire { key, seconds } => {
-                let result = self.storage.expire(db, &key, Duration::from_secs(seconds))?;
+                // as the direct command: a count <= 0 deletes the key
+                let result = if seconds <= 0 {
+                    self.storage.delete(db, &key)?
+                } else {
+                    self.storage.expire(db, &key, Duration::from_secs(seconds as u64))?
+                };
                 Ok(RespFrame::Integer(if result { 1 } else { 0 }))
             }
             
@@ -1218,8 +1223,17 @@ impl UnifiedCommandExecutor {
                 let ttl = self.storage.ttl(db, &key)?;
                 match ttl {
                     Some(duration) => {
+                        // as the direct command: -2 once expired, otherwise rounded up
                         let secs = duration.as_secs() as i64;
-                        Ok(RespFrame::Integer(if secs == 0 && duration.subsec_millis() > 0 { 1 } else { secs }))
+                        Ok(RespFrame::Integer(if secs == 0 && duration.subsec_millis() == 0 {
+                            -2
+                        } else if secs == 0 {
+                            1
+                        } else if duration.subsec_nanos() > 0 {
+                            secs + 1
+                        } else {
+                            secs
+                        }))
                     }
                     None => {
                         if self.storage.exists(db, &key)? {
@@ -1252,13 +1266,14 @@ impl UnifiedCommandExecutor {
             }
             
             KeyCommand::RenameNx { old_key, new_key } => {
-                use crate::storage::commands::strings::handle_rename;
-                let frames = vec![
-                    RespFrame::from_string("RENAMENX"),
-                    RespFrame::from_bytes(old_key),
-                    RespFrame::from_bytes(new_key),
-                ];
-                handle_rename(&self.storage, db, &frames)
+                if !self.storage.exists(db, &old_key)? {
+                    return Ok(RespFrame::error("ERR no such key"));
+                }
+                if self.storage.exists(db, &new_key)? {
+                    return Ok(RespFrame::Integer(0));
+                }
+                self.storage.rename(db, &old_key, new_key)?;
+                Ok(RespFrame::Integer(1))
             }
             
             KeyCommand::RandomKey => {
@@ -2714,7 +2729,7 @@ impl CommandParser {
             return Err(FerrousError::Command(CommandError::WrongNumberOfArguments("EXPIRE".into())));
         }
         let key = Self::extract_bytes(&frames[1])?;
-        let seconds = Self::extract_string(&frames[2])?.parse::<u64>()
+        let seconds = Self::extract_string(&frames[2])?.parse::<i64>()
             .map_err(|_| FerrousError::Command(CommandError::InvalidIntegerValue))?;
         Ok(KeyCommand::Expire { key, seconds })
     }
